@@ -15,6 +15,9 @@ func init() {
 			// C12 answers for the unsupported forms: labelled break/continue, goto, fallthrough out of a yielding case
 			c.keep(func(o Obligation) bool {
 				if o.Rule == "RW.BRANCHCTX" {
+					if strings.HasPrefix(o.Detail, "over-rejection") {
+						return false // rejecting with a diagnostic is always admissible for C12 (it is C11's concern)
+					}
 					return strings.HasSuffix(o.Construct, " L") || strings.Contains(o.Construct, ": goto") || strings.Contains(o.Construct, ": fallthrough")
 				}
 				return true
